@@ -79,6 +79,10 @@ def run(prop, tier, extra=None):
                                  "tunnels), each with %d seeded value sets, read by the TLA+ dissector Stack2 from 8 entry points (C05) / judged on size-exactness "
                                  "and by the region monitor (C02)" % (6 if quick else 40)})
         cat_exec = p3.stats["executions"]
+    if prop == "C02":
+        # parsed packets: whatever a (damaged) buffer is accepted as must serialize to exactly size() bytes
+        from families import c01
+        st2.update(c01.parsed_serialize_part(prop, v, quick))
     if prop == "C04":
         # typed option setters/getters: mutual inverses on the object and through the wire (spec/wire/TypedOpts)
         st2.update(typed.run_part(prop, v, quick))
@@ -112,6 +116,8 @@ def replay(prop, path):
     import json
     with open(path) as f:
         h = json.load(f)["replay"]["harness"]
+    if h == "parse_safe":
+        return vlib.Pipeline(prop, "parse_safe", "wire/FaultTrace", "FaultTrace_%s.cfg" % prop).replay_file(path)
     if h == "typed_opts":
         return typed.replay(prop, path)
     if h == "wire_cat":
